@@ -1667,7 +1667,7 @@ NEEDS_DRIVER = True
 
 
 def scenarios(seed, tier):
-    n, m = (250, 150) if tier == 'quick' else (2500, 1500)
+    n, m = (400, 250) if tier == 'quick' else (2500, 1500)
     rnd = random.Random(seed * 7919 + 10)
     for name, c in witness_cases().items():
         yield 'witness:' + name, c
